@@ -468,15 +468,23 @@ def run_job(crate, harness, skeleton, jobdir, budget, want_witness=True):
             r.detail = raw
         else:
             skip = {p["name"] for p in covers} | {p["name"] for p in allowed}
-            bad = []
+            bad, undet = [], []
             for n, v in st.items():
                 if n in skip or "reachability_check" in n:
                     continue
-                if v != "SUCCESS":
+                if v == "FAILURE":
                     bad.append(n)
+                elif v != "SUCCESS":
+                    undet.append(n)     # CBMC reports UNKNOWN for checks it could not decide after an earlier failure
             missing = [n for n in names if n not in st]
             r.failed = [(_pdesc(by_name[n]) if n in by_name else n) + " => " + str(st.get(n)) for n in bad] + [n + " => NOT REPORTED" for n in missing]
-            r.status = "proved" if not (bad or missing) else "failed"
+            if bad or missing:
+                r.status = "failed"
+            elif undet:
+                r.status = "unknown"
+                r.detail = "%d properties undetermined, e.g. %s" % (len(undet), undet[0])
+            else:
+                r.status = "proved"
             ends = [p for p in covers if "vk_end" in p["desc"]]
             if harness.witness and ends and r.status == "proved":
                 r.witness = any(st.get(p["name"]) in ("FAILURE", "SATISFIED") for p in ends)
